@@ -24,9 +24,9 @@ CHECKS = {
          "All 2,624 zone contents over a 7-name tree (apex, a, b.a, *.a, c, d.c, *) with kinds none/A/TXT/A+TXT/CNAME/NS/NS+DS(+glue), reached through every history shape: ZoneBuilder in two insertion orders, parsed::Zonefile, ZoneUpdater full replacement from a bare and from a busy zone, write interface from a bare zone and via remove_all, and from every single-slot neighbour content a ZoneUpdater edit, a write-interface edit, and a write-interface edit after an abandoned (rolled back) attempt; every (qname,qtype) over 16 names x 6 types plus walk() is compared with a reference resolver written over plain data (exact/CNAME/NODATA incl. ENT/referral with NS, DS, glue/wildcard synthesis/NXDOMAIN, SOA in negative answers, AA).",
          "HashMap order not owned (set comparison, no qtype ANY); CNAMEs are not chased; updater histories run over contents without NS/DS/CNAME because the updater has no cut/CNAME notion (known finding, witnessed); history-dependent mismatches are classified by structural cause and only the listed causes with their implied symptom are known findings.",
          "seqx", "DESIGN.md §3 C08"),
- "C09": ("model_checking", "explicit-state BFS over all operation-level interleavings of a writer and two readers on the real zone (replay), differential oracles",
-         "BFS to depth 7 (quick) / 8 (thorough) over every interleaving of writer steps (open, update x3 names, remove, remove_all, commit, drop; thorough also commit-keeping-the-node-handle and writes through it) with two readers' acquire/observe/release; each history replayed on a fresh real zone; states deduplicated on (model state, sorted Debug rendering of the zone incl. version vectors). Oracles: a held reader's observation vector (6 queries + walk) never changes; a reader acquired after commit walks exactly the last committed content and serves no data outside it; abandoned work is never visible.",
-         "Operation granularity only: real-thread schedules of the lock-level code are NOT explored (the loom engine planned in DESIGN.md was not built; see DESIGN.md). Answer-kind correctness is C08's business.",
+ "C09": ("model_checking", "explicit-state BFS over operation-level interleavings (replay on the real zone) + loom preemption-bounded exploration of real-thread schedules on the real locks via the verif-hooks seam",
+         "(a) BFS to depth 7 (quick) / 8 (thorough) over every interleaving of writer steps (open, update x3 names, remove, remove_all, commit, drop; thorough also commit-keeping-the-node-handle and writes through it) with two readers' acquire/observe/release; each history replayed on a fresh real zone; states deduplicated on (model state, sorted Debug rendering of the zone incl. version vectors). Oracles: a held reader's observation vector (6 queries + walk) never changes; a reader acquired after commit walks exactly the last committed content and serves no data outside it; abandoned work is never visible. (b) loom 0.7.2 DPOR over three 3-thread scenarios (reader|writer|reader, reader|writer|writer, reader|abandoning writer|writer) on the REAL parking_lot/tokio locks and tree, every lock acquisition of zonetree::in_memory being a scheduling point (feature verif-hooks), preemption bound 2 (quick, 26k schedules) / 3 (thorough, 1.2M schedules). Oracles: reader observation stable and equal to one committed version, writers never overlap, final content is a serial outcome, no deadlock.",
+         "loom sees scheduling points at lock acquisitions only (the code has no other shared mutable state besides SeqCst atomics of the single writer); the loom tree is a single chain so unowned HashMap iteration order cannot influence schedules; memory-model effects below SeqCst are not modelled. Answer-kind correctness is C08's business.",
          "seqx", "DESIGN.md §3 C09"),
  "C13": ("exploration", "exhaustive enumeration of all zones over a small name universe x NSEC/NSEC3 configurations through the real SortedRecords + generate_nsecs/generate_nsec3s, independent chain builder and coverage predicate as oracle",
          "All zones over an 11-name universe (cuts, glue, occluded data, nested cut, shared and two-level ENTs, wildcard, case twins, multi-window bitmaps, equal-RDATA unknown types, out-of-zone records): 82,944 zones quick / 746,496 thorough, x NSEC (DNSKEY assumed on/off) and 14/30 NSEC3 configs (salt x iterations x opt-out modes). Oracle written from RFC 4034/4035/5155 in the harness: own canonical order, cut/glue/occlusion predicates, ENT derivation, iterated SHA-1 + base32hex, bitmap codec; exact owner set, order, next pointers, bitmaps; and for every absent (name,type) over a 64-name closure x 12 types a matching-without-bit or covering record (incl. wrap-around, closest-encloser/next-closer for NSEC3, opt-out flag).",
@@ -87,6 +87,7 @@ def main():
             {"name": "sweep", "path": "/verif/mc/src/bin/c17.rs", "serves_properties": ["C17"], "kind_free_text": "flat exhaustive numeric sweep, 16 cores"},
             {"name": "gramx", "path": "/verif/mc/src/lib.rs", "serves_properties": [p for p in ALL if p in CHECKS and CHECKS[p][4] == "gramx"], "kind_free_text": "grammar-exhaustive input enumeration against the real code with independent oracles"},
             {"name": "seqx", "path": "/verif/mc/src/lib.rs", "serves_properties": [p for p in ALL if p in CHECKS and CHECKS[p][4] == "seqx"], "kind_free_text": "explicit-state BFS over operation sequences on the real objects, reference model as oracle"},
+            {"name": "loom", "path": "/verif/mc-loom/src/main.rs", "serves_properties": ["C09"], "kind_free_text": "loom 0.7.2 preemption-bounded DPOR over real threads of the real zone code; scheduling points from the verif-hooks lock seam"},
             {"name": "envx", "path": "/verif/mc/src/envx.rs", "serves_properties": [p for p in ALL if p in CHECKS and CHECKS[p][4] == "envx"], "kind_free_text": "stateless deviation-bounded exploration of environment choice sequences (mock peers, paused clock)"},
         ],
         "checks": checks,
